@@ -128,13 +128,26 @@ def build_lock():
             fcntl.flock(f, fcntl.LOCK_UN)
 
 
+def property_modules(prop):
+    """Lean modules holding the property theorems of `prop`: Properties/<prop>.lean plus any
+    Properties/<prop><Suffix>.lean (e.g. <prop>Kernels.lean: bridges to the translated kernels)."""
+    d = os.path.join(LEAN_DIR, 'Torf', 'Properties')
+    out = []
+    if os.path.isdir(d):
+        for fn in sorted(os.listdir(d)):
+            m = re.fullmatch(prop + r'([A-Z]\w*)?\.lean', fn)
+            if m:
+                out.append(fn[:-5])
+    return out
+
+
 def property_theorems(prop):
-    """Names of the property theorems, parsed from lean/Torf/Properties/<prop>.lean."""
-    path = os.path.join(LEAN_DIR, 'Torf', 'Properties', f'{prop}.lean')
-    if not os.path.exists(path):
-        return []
-    src = _strip_lean_comments(open(path).read())
-    return re.findall(r'^theorem\s+(' + prop + r'_\w+)', src, re.M)
+    """Names of the property theorems, parsed from the property's modules."""
+    names = []
+    for mod in property_modules(prop):
+        src = _strip_lean_comments(open(os.path.join(LEAN_DIR, 'Torf', 'Properties', f'{mod}.lean')).read())
+        names += re.findall(r'^theorem\s+(' + prop + r'_\w+)', src, re.M)
+    return names
 
 
 def forbidden_tokens():
@@ -183,7 +196,8 @@ class BuildStatus:
     def broken_description(self):
         if not self.prop_ok:
             m = re.findall(r'error: (\S+\.lean:\d+:\d+: .*)', self.log)
-            return 'theorem-module-does-not-build: ' + '; '.join(m[:5])
+            return ('theorem-module-does-not-build (' + ', '.join(getattr(self, 'failed_modules', [])) + '): ' +
+                    '; '.join(m[:5]))
         if self.forbidden:
             return 'forbidden tokens: ' + ', '.join(self.forbidden[:5])
         if self.bad_axioms:
@@ -214,19 +228,26 @@ def ensure_build(prop, thorough=False):
             rc, out = run_cmd(['lake', 'build', 'driver'], cwd=LEAN_DIR)
             st.driver_ok = rc == 0 and os.path.exists(DRIVER_BIN)
             st.log += out
-        rc, out = run_cmd(['lake', 'build', f'+Torf.Properties.{prop}'], cwd=LEAN_DIR)
-        st.prop_ok = rc == 0
-        st.log += out
+        mods = property_modules(prop)
+        st.prop_ok = bool(mods)
+        st.failed_modules = []
+        for mod in mods:
+            rc, out = run_cmd(['lake', 'build', f'+Torf.Properties.{mod}'], cwd=LEAN_DIR)
+            if rc != 0:
+                st.prop_ok = False
+                st.failed_modules.append(mod)
+            st.log += out
         st.theorems = property_theorems(prop)
         st.forbidden = forbidden_tokens()
-        st.checker_cmd = (f'cd lean && lake build +Torf.Properties.{prop} && '
+        st.checker_cmd = ('cd lean && lake build ' + ' '.join(f'+Torf.Properties.{m}' for m in mods) + ' && '
                           f'lake env lean .lake/audit/{prop}.lean  # #print axioms of every property theorem')
         if st.prop_ok:
             adir = os.path.join(LEAN_DIR, '.lake', 'audit')
             os.makedirs(adir, exist_ok=True)
             apath = os.path.join(adir, f'{prop}.lean')
             with open(apath, 'w') as f:
-                f.write(f'import Torf.Properties.{prop}\n')
+                for mod in mods:
+                    f.write(f'import Torf.Properties.{mod}\n')
                 for t in st.theorems:
                     f.write(f'#print axioms Torf.{prop}.{t}\n')
             rc, out = run_cmd(['lake', 'env', 'lean', apath], cwd=LEAN_DIR)
@@ -244,10 +265,10 @@ def ensure_build(prop, thorough=False):
                 else:
                     st.missing.append(t)
             if thorough:
-                rc, out = run_cmd(['lake', 'env', 'leanchecker', f'Torf.Properties.{prop}'],
+                rc, out = run_cmd(['lake', 'env', 'leanchecker'] + [f'Torf.Properties.{m}' for m in mods],
                                   cwd=LEAN_DIR, timeout=1800)
                 st.leanchecker = {'rc': rc, 'tail': out[-300:]}
-                st.checker_cmd += f' && lake env leanchecker Torf.Properties.{prop}'
+                st.checker_cmd += ' && lake env leanchecker ' + ' '.join(f'Torf.Properties.{m}' for m in mods)
     return st
 
 
